@@ -1,7 +1,7 @@
 """C13 — hash256 is a structural fingerprint computed as real SHA-256 (DESIGN.md §5 C13)."""
 import vcheck, os
 
-MODULES = ["BeffVerif.Props.C13", "BeffVerif.Props.C13Inj", "BeffVerif.Props.C13Tree", "BeffVerif.Props.C13Rec"]
+MODULES = ["BeffVerif.Props.C13", "BeffVerif.Props.C13Inj", "BeffVerif.Props.C13Tree", "BeffVerif.Props.C13Rec", "BeffVerif.Props.C13Names"]
 AUDIT = "BeffVerif/Audit/C13.lean"
 
 def run(chk):
@@ -17,7 +17,7 @@ def run(chk):
         "C13: collision resistance of SHA-256 is a cryptographic assumption, never a Lean axiom",
     ]
     chk.open_obligations += [
-        "injectivity of the Runtype-level token stream is a theorem for every tree, with named references and recursion (Props/C13Tree for closed trees, Props/C13Rec: same_stream_same_behaviour_rec, different_behaviour_different_stream_rec / _bytes_rec), under three stated hypotheses: GoodR / GoodEnv (what a JavaScript object can be: distinct property and mapping keys, constants are constants), SourceDeterminesMatch (a regular expression's source decides what it matches: a fact about the regex engine, not modelled), Tok.Valid (payloads below 2^32 bytes). The converse half of C13 (name, alias-boundary, order and comment independence of the digest) is decided by the pair pass on the real classes (c13.same) and is a theorem only for property order / constants order (sorting lemmas); it is not a Lean theorem in general",
+        "injectivity of the Runtype-level token stream is a theorem for every tree, with named references and recursion (Props/C13Tree for closed trees, Props/C13Rec: same_stream_same_behaviour_rec, different_behaviour_different_stream_rec / _bytes_rec), under three stated hypotheses: GoodR / GoodEnv (what a JavaScript object can be: distinct property and mapping keys, constants are constants), SourceDeterminesMatch (a regular expression's source decides what it matches: a fact about the regex engine, not modelled), Tok.Valid (payloads below 2^32 bytes). The converse half of C13 is a theorem rewrite by rewrite (Props/C13Names): renaming the named types injectively (h256_rename, hash256Toks_rename: names never reach the stream, recursive types included), descriptions (h256_described), alias hops (h256_alias_hop), property order and discriminator-case order (object_property_order, disc_mapping_order; hash32_property_order for the 32-bit hash). Not a theorem: introducing / removing a name for an arbitrary sub-term (alias boundary in general: a new binder may move where a cycle is cut — the class of D41 / D78), decided by c13.same on the real classes",
     ]
     quick = chk.tier == "quick"
     stats = []
